@@ -2,6 +2,7 @@ package main
 
 import (
 	"fmt"
+	"sync/atomic"
 	"go/constant"
 	"go/token"
 	"go/types"
@@ -161,6 +162,7 @@ type Exec struct {
 	inInit   bool
 	pathVio  int
 	nondetN  int
+	memReadDepth int
 	envLog   []envLogRec
 	envResults map[string]*Term
 	serverClosed map[Ptr]bool
@@ -868,6 +870,9 @@ func (e *Exec) stepG(g *G, nested bool) {
 	}
 	e.steps++
 	e.Instrs++
+	if e.steps&4095 == 0 && atomic.LoadInt32(&memExceeded) != 0 {
+		e.fail(OutBound, "memory budget exceeded")
+	}
 	if e.steps > e.maxSteps {
 		e.fail(OutBound, "step bound %d exceeded in %s", e.maxSteps, fr.fn)
 	}
@@ -1019,6 +1024,11 @@ func (e *Exec) exec(g *G, fr *Frame, instr ssa.Instruction, nested bool) {
 	case *ssa.Send:
 		e.execSend(g, fr, in, nested)
 	case *ssa.Store:
+		if bp, ok := e.get(fr, in.Addr).(*BytePtr); ok {
+			e.memStore(bp.Mem, bp.Idx, e.get(fr, in.Val).(*Term))
+			fr.pc++
+			return
+		}
 		addr := e.get(fr, in.Addr).(Ptr)
 		if addr == nil {
 			e.runtimePanic(g, "nil pointer dereference (store)")
@@ -1066,7 +1076,7 @@ func (e *Exec) exec(g *G, fr *Frame, instr ssa.Instruction, nested bool) {
 		ln := e.get(fr, in.Len).(*Term)
 		cp := e.get(fr, in.Cap).(*Term)
 		et := in.Type().Underlying().(*types.Slice).Elem()
-		if isByteSlice(in.Type()) && (!ln.IsConst() || !cp.IsConst()) && e.hcfg != nil && e.hcfg.SymBytes {
+		if isByteSlice(in.Type()) && e.hcfg != nil && e.hcfg.SymBytes {
 			fr.env[in] = e.makeSymBytes(ln, cp)
 			fr.pc++
 			return
